@@ -323,6 +323,25 @@ fn run_map(a: &Attributes, stats: &mut BTreeMap<String, u64>) -> CaseOut {
                         Err(e) => o.oracle.push(format!("could not locate the Attributes blob in the {fmt} file: {e}")),
                     }
                 }
+                // the same map among class-mates in one file: [a fixed non-empty map, this map, an empty map, no Attributes at
+                // all] must be stored as [its blob, this blob, zero bytes, zero bytes] by both formats, and read back so
+                match sibling_blobs(a) {
+                    Err(e) => o.oracle.push(format!("class-mates: {e}")),
+                    Ok(cells) => {
+                        let prev = encode(&sibling_prev()).ok().and_then(|r| r.ok()).unwrap_or_default();
+                        let want: [&[u8]; 4] = [&prev, &bytes, &[], &[]];
+                        for (fmt, got) in [("binary", &cells.0), ("XML", &cells.1)] {
+                            for k in 0..4 {
+                                if got.get(k).map(|c| c.as_slice()) != Some(want[k]) {
+                                    o.oracle.push(format!(
+                                        "the {fmt} file stores {} bytes for the Attributes of class-mate #{k} of [non-empty, this map, empty map, none]; its own blob has {} bytes",
+                                        got.get(k).map(|c| c.len() as i64).unwrap_or(-1), want[k].len()));
+                                    break;
+                                }
+                            }
+                        }
+                    }
+                }
             }
             let d = decode(&bytes);
             o.obs.push(format!("dec {}", dec_string(&d)));
@@ -450,6 +469,107 @@ fn blobs_in_files(a: &Attributes) -> (Result<Vec<u8>, String>, Result<Vec<u8>, S
         buf.get(p + 4..p + 4 + len).map(|s| s.to_vec()).ok_or_else(|| "truncated column".to_string())
     })();
     (xml, bin)
+}
+
+
+fn sibling_prev() -> Attributes {
+    let mut p = Attributes::new();
+    p.insert("Previous".to_string(), Variant::Float64(2.5));
+    p.insert("Other".to_string(), Variant::String("class-mate".to_string()));
+    p
+}
+
+/// (binary cells, XML cells) of the Attributes property of four Folders written into one file:
+/// [fixed non-empty map, `a`, empty map, no Attributes property]
+fn sibling_blobs(a: &Attributes) -> Result<(Vec<Vec<u8>>, Vec<Vec<u8>>), String> {
+    use rbx_dom_weak::{InstanceBuilder, WeakDom};
+    let mut dom = WeakDom::new(InstanceBuilder::new("DataModel"));
+    let root = dom.root_ref();
+    let mut roots = Vec::new();
+    roots.push(dom.insert(root, InstanceBuilder::new("Folder").with_name("f0").with_property("Attributes", Variant::Attributes(sibling_prev()))));
+    roots.push(dom.insert(root, InstanceBuilder::new("Folder").with_name("f1").with_property("Attributes", Variant::Attributes(a.clone()))));
+    roots.push(dom.insert(root, InstanceBuilder::new("Folder").with_name("f2").with_property("Attributes", Variant::Attributes(Attributes::new()))));
+    roots.push(dom.insert(root, InstanceBuilder::new("Folder").with_name("f3")));
+    // binary: the String column AttributesSerialize has one length-prefixed cell per instance, in referent order
+    let mut buf = Vec::new();
+    rbx_binary::Serializer::new()
+        .compression_type(rbx_binary::CompressionType::None)
+        .serialize(&mut buf, &dom, &roots)
+        .map_err(|e| format!("binary writer: {e}"))?;
+    let mut key = vec![19u8, 0, 0, 0];
+    key.extend_from_slice(b"AttributesSerialize");
+    key.push(0x01);
+    let at = find(&buf, &key).ok_or("no AttributesSerialize String column in the binary file")?;
+    let mut p = at + key.len();
+    let mut bin = Vec::new();
+    for _ in 0..4 {
+        if p + 4 > buf.len() {
+            return Err("truncated column".to_string());
+        }
+        let len = u32::from_le_bytes([buf[p], buf[p + 1], buf[p + 2], buf[p + 3]]) as usize;
+        bin.push(buf.get(p + 4..p + 4 + len).ok_or("truncated column")?.to_vec());
+        p += 4 + len;
+    }
+    // and what the binary reader returns for each instance agrees with the cells
+    let back = rbx_binary::from_reader(buf.as_slice()).map_err(|e| format!("binary reader: {e}"))?;
+    for (k, r) in back.root().children().iter().enumerate() {
+        let got = match back.get_by_ref(*r).and_then(|i| i.properties.get(&rbx_dom_weak::ustr("Attributes"))) {
+            Some(Variant::Attributes(m)) => encode(m).ok().and_then(|r| r.ok()).unwrap_or_default(),
+            Some(_) => return Err(format!("binary reader returns a non-Attributes value for class-mate #{k}")),
+            None => Vec::new(),
+        };
+        let own = match k {
+            0 => encode(&sibling_prev()).ok().and_then(|r| r.ok()).unwrap_or_default(),
+            1 => encode(a).ok().and_then(|r| r.ok()).unwrap_or_default(),
+            _ => Vec::new(),
+        };
+        // compare through the decoder's normal form of the own blob
+        let norm = |b: &[u8]| match decode(b) {
+            Dec::Ok(m) => encode(&m).ok().and_then(|r| r.ok()).unwrap_or_default(),
+            _ => b.to_vec(),
+        };
+        if norm(&got) != norm(&own) {
+            return Err(format!("after the binary round trip class-mate #{k} holds attributes that are not its own ({} bytes re-encoded, its own {} bytes)", got.len(), own.len()));
+        }
+    }
+    // XML: one AttributesSerialize element per Item that has the property (f3 has none: an absent element counts as zero bytes)
+    let mut xbuf = Vec::new();
+    rbx_xml::to_writer_default(&mut xbuf, &dom, &roots).map_err(|e| format!("xml writer: {e}"))?;
+    let mut xml = Vec::new();
+    let text = xbuf;
+    let items: Vec<usize> = {
+        let mut v = Vec::new();
+        let mut from = 0;
+        while let Some(i) = find(&text[from..], b"<Item ") {
+            v.push(from + i);
+            from += i + 6;
+        }
+        v.push(text.len());
+        v
+    };
+    for w in items.windows(2) {
+        let seg = &text[w[0]..w[1]];
+        let open = b"<BinaryString name=\"AttributesSerialize\"";
+        match find(seg, open) {
+            None => xml.push(Vec::new()),
+            Some(at) => {
+                let rest = &seg[at + open.len()..];
+                if rest.starts_with(b"/>") || rest.starts_with(b" />") {
+                    xml.push(Vec::new());
+                    continue;
+                }
+                let gt = rest.iter().position(|c| *c == b'>').ok_or("unterminated tag")?;
+                let body = &rest[gt + 1..];
+                let end = find(body, b"</BinaryString>").ok_or("no end tag")?;
+                let mut t = String::from_utf8_lossy(&body[..end]).to_string();
+                if let Some(x) = t.strip_prefix("<![CDATA[").and_then(|x| x.strip_suffix("]]>")) {
+                    t = x.to_string();
+                }
+                xml.push(unbase64(&t).ok_or_else(|| "payload is not base64".to_string())?);
+            }
+        }
+    }
+    Ok((bin, xml))
 }
 
 fn opt_id(x: Option<u8>) -> String {
